@@ -219,3 +219,23 @@ def multisig_wide(rnd, n, world="W1"):
         out.append({"id": "MW%d" % k, "world": world, "family": "ledger", "steps": steps})
     return out
 
+
+def check_boundaries():
+    """check redemptions at the edge of the issuer's funds (world W1u: every price is one unit, a2 owns 3 units): the issuer holds exactly the
+    value, the value plus the fee minus one pip, exactly value plus fee -- with the check's coin equal to its gas coin"""
+    out = []
+    for name, spend, value in (("exact-value", "1u", "1u"), ("value-only-2", "0", "2u"), ("value-plus-fee", "0", "1u"), ("all", "1u", "0")):
+        txs = []
+        if spend != "-":
+            txs.append({"id": "t1", "check": True, "type": "Send", "from": "a2", "args": {"coin": "BIP", "to": "a1", "value": spend}})
+        txs.append({"id": "t2", "check": True, "type": "RedeemCheck", "from": "a3",
+                    "args": {"check": "kb", "issue": {"issuer": "a2", "coin": "BIP", "gasCoin": "BIP", "value": value, "due": 900, "chain": 2}}})
+        out.append({"id": "CB:" + name, "world": "W1u", "family": "ledger", "steps": [{"op": "block", "txs": txs}, {"op": "block"}, {"op": "block"}]})
+    # one pip short of value plus fee
+    out.append({"id": "CB:one-pip-short", "world": "W1u", "family": "ledger", "steps": [
+        {"op": "block", "txs": [{"id": "t1", "check": True, "type": "Send", "from": "a2", "args": {"coin": "BIP", "to": "a1", "value": "1"}},
+                                {"id": "t2", "check": True, "type": "RedeemCheck", "from": "a3",
+                                 "args": {"check": "kb", "issue": {"issuer": "a2", "coin": "BIP", "gasCoin": "BIP", "value": "1u", "due": 900, "chain": 2}}}]},
+        {"op": "block"}]})
+    return out
+
